@@ -231,7 +231,7 @@ def bottleneck_contract(want_matching):
         e, g = a.eng, a.g
         out = []
         if "ds0" not in g:
-            return [("reached_search", False, "P")]
+            return [("reached_search", False, "S")]
         bd = res[0] if want_matching else res
         kstar = e.fresh_int("kstar", lo=0, hi=g["K"])
         ql = z3.Int(e.uniq("qe"))
